@@ -4,6 +4,7 @@ import (
 	"encoding/binary"
 	"fmt"
 	"io"
+	"math"
 
 	"google.golang.org/protobuf/proto"
 )
@@ -50,6 +51,10 @@ func ReadMessage(buf *[]byte, r ByteReadReader, msg proto.Message) error {
 	size, err := binary.ReadUvarint(r)
 	if err != nil {
 		return err
+	}
+	if size > math.MaxInt32 {
+		// No message can be that large, the size is corrupt.
+		return fmt.Errorf("invalid message size %d", size)
 	}
 	if cap(*buf) < int(size) {
 		*buf = make([]byte, size)
